@@ -135,6 +135,8 @@ impl StateMachine<'_> {
     ) -> std::io::Result<()> {
         use DiffType::*;
         use State::*;
+        // Removed/added lines that precede the conflict region may still be buffered.
+        self.painter.paint_buffered_minus_and_plus_lines();
         self.painter.emit()?;
 
         write_merge_conflict_bar(
